@@ -27,11 +27,24 @@ def rt_events(quick):
     for kind in ('gentime', 'utctime'):
         years = [1, 999, 1000, 1969, 1999, 2000, 2049, 2068, 9999] if kind == 'gentime' else [1969, 1999, 2000, 2049, 2068]
         uss = [0, 1000, 5000, 50000, 120000, 999000] if kind == 'gentime' else [0]
+        days = lambda y: ((1, 1), (2, 29 if calendar.isleap(y) else 28), (12, 31))
+        times = ((0, 0, 0), (23, 59, 59), (12, 30, 15))
+        offsets = OFFSETS
+        if not quick:
+            # thorough: every whole-quarter-hour offset between -14:00 and +14:00 plus odd minutes, more years, month ends,
+            # every millisecond digit pattern over {0, 1, 9}
+            years = sorted(set(years + [2, 10, 99, 100, 1582, 1900, 1970, 2024, 2038, 2100, 9998])) if kind == 'gentime' else list(range(1969, 2069, 7)) + [1999, 2000, 2049, 2068]   # the 2-digit year window of UTCTime
+            uss = sorted({(a * 100 + b * 10 + c) * 1000 for a in (0, 1, 9) for b in (0, 1, 9) for c in (0, 1, 9)}) if kind == 'gentime' else [0]
+            days = lambda y: tuple((m, calendar.monthrange(y, m)[1]) for m in range(1, 13)) + ((1, 1), (3, 1))
+            times = ((0, 0, 0), (23, 59, 59), (12, 30, 15), (0, 0, 59), (23, 0, 0))
+            offsets = [None] + sorted(set(list(range(-14 * 60, 14 * 60 + 1, 15)) + [1, -1, 59, -59, 61, 839, -839, 330, 345, 765]))
         for y in years:
-            for (mo, d) in ((1, 1), (2, 29 if calendar.isleap(y) else 28), (12, 31)):
-                for (h, mi, s) in ((0, 0, 0), (23, 59, 59), (12, 30, 15)):
+            for (mo, d) in days(y):
+                for (h, mi, s) in times:
                     for us in uss:
-                        for off in OFFSETS:
+                        for off in offsets:
+                            if not quick and off not in OFFSETS and (y * 31 + mo * 7 + d + h + us // 1000 + (off or 0)) % 5:
+                                continue            # the extra offsets on a deterministic fifth of the grid
                             tz = None if off is None else datetime.timezone(datetime.timedelta(minutes=off))
                             try:
                                 dt = datetime.datetime(y, mo, d, h, mi, s, us, tzinfo=tz)
@@ -54,10 +67,15 @@ def rt_events(quick):
     return evs
 
 
-def time_strings():
+def time_strings(quick=True):
     out = []
     fr = ['', '.0', '.5', '.50', '.05', '.102', '.010', '.100', '.999', '.0001', '.123456', '.000000', ',5', ',050',
           '.5000', '.1200', '.1230', '.12300', '.9990']
+    if not quick:
+        import itertools
+        fr += ['.' + ''.join(t) for n in range(1, 7) for t in itertools.product('019', repeat=n)]
+        fr += [',' + ''.join(t) for n in range(1, 4) for t in itertools.product('05', repeat=n)]
+        fr = sorted(set(fr))
     for t in ('12', '1201', '120112', '000000', '235959'):
         for f in fr:
             for z in ('Z', '', '+0130', '-0500', '+01', '-14'):
@@ -72,9 +90,9 @@ def time_strings():
     return out
 
 
-def enc_events():
+def enc_events(quick=True):
     evs = []
-    for kind, text in time_strings():
+    for kind, text in time_strings(quick):
         for codec, enc in (('cer', cer_enc), ('der', der_enc)):
             e = {'op': 'enc', 'kind': kind, 'codec': codec, 'text': list(text.encode()), 'st': 'raise', 'out': [], 'exc': ''}
             st, r = R.guarded(lambda: enc.encode(KIND[kind](text)), seconds=5)
@@ -96,22 +114,20 @@ def enc_events():
 
 def run(ctx):
     with tlc.Scratch('c20') as sc:
-        evs = rt_events(ctx.quick) + enc_events()
+        evs = rt_events(ctx.quick) + enc_events(ctx.quick)
         traces = [{'id': i // 500 + 1, 'ev': evs[i:i + 500]} for i in range(0, len(evs), 500)]
         selftest = {'id': 10 ** 8, 'ev': [
             {'op': 'rt', 'kind': 'gentime', 'in': [2000, 1, 1, 0, 0, 0, 0, 60], 'out': [2000, 1, 1, 0, 0, 0, 0, 0], 'st': 'ok', 'exc': '', 'text': ''},
             {'op': 'enc', 'kind': 'gentime', 'codec': 'der', 'text': list(b'20170801120112.50Z'), 'st': 'ok', 'out': list(b'20170801120112.50Z'), 'exc': ''}]}
-        path = sc.file('time.ndjson')
-        with open(path, 'w') as f:
-            for t in traces + [selftest]:
-                f.write(json.dumps(t, separators=(',', ':')) + '\n')
-        tlc.write_cfg(sc.file('time.cfg'), spec='TraceSpec')
-        r = tlc.run(os.path.join(tlc.SPEC, 'Trace_Time.tla'), sc.file('time.cfg'), sc, env={'TRACE_FILE': path}, timeout=1800)
-        ctx.add_tlc('time acceptor', r)
-        if not r.ok:
-            raise core.Machinery('time acceptor failed: %s\n%s' % (r.errors[:3], r.out[-2000:]))
-        if r.distinct != len(evs) + len(traces) + 3:
-            raise core.Machinery('time acceptor consumed %d states, expected %d' % (r.distinct, len(evs) + len(traces) + 3))
+        try:
+            printed = tlc.run_traces(ctx, sc, 'Trace_Time', traces + [selftest], 'time acceptor', nev=lambda t: len(t['ev']),
+                                     max_events=50000)
+        except tlc.AcceptorFailure as e:
+            raise core.Machinery('time acceptor failed: %s' % e)
+        class _R:          # noqa
+            pass
+        r = _R()
+        r.printed = printed
         rej = [p for p in r.printed if isinstance(p, list) and len(p) == 4 and p[0] == 'REJECT']
         if {(p[2], p[3]) for p in rej if p[1] == 10 ** 8} != {(1, 'OffsetChanged'), (2, 'NotCanonical')}:
             raise core.Machinery('time acceptor self-test failed: %s' % [p for p in rej if p[1] == 10 ** 8])
